@@ -40,7 +40,7 @@ import (
 
 func init() { gens["C06"] = genC06 }
 
-func infoObs(f func() (file.Info, error)) Sx {
+func c06_infoObs(f func() (file.Info, error)) Sx {
 	return guard(func() Sx {
 		i, err := f()
 		if err != nil {
@@ -50,7 +50,7 @@ func infoObs(f func() (file.Info, error)) Sx {
 	})
 }
 
-func attrsObs(f func() ([]file.Attribute, error)) Sx {
+func c06_attrsObs(f func() ([]file.Attribute, error)) Sx {
 	return guard(func() Sx {
 		as, err := f()
 		if err != nil {
@@ -92,7 +92,7 @@ func c06Inspect(c *Ctx, name string, data []byte, targets ...string) (SL, Sx) {
 			cands = append(cands, SL{S(rows[i].Parser), SL{}})
 			continue
 		}
-		res := infoObs(func() (file.Info, error) {
+		res := c06_infoObs(func() (file.Info, error) {
 			return file.VerifRunRowParser(i, file.Info{Path: p, Size: int64(len(data))}, data)
 		})
 		cands = append(cands, SL{S(rows[i].Parser), res})
@@ -267,7 +267,7 @@ func c06SSHCase(c *Ctx, op, tag string, data []byte, its []sshItem, crlf bool, t
 		}
 		seen[string(ch)] = true
 		ch := ch
-		oracle = append(oracle, SL{SB(ch), attrsObs(func() ([]file.Attribute, error) { return lineFn(ch) })})
+		oracle = append(oracle, SL{SB(ch), c06_attrsObs(func() ([]file.Attribute, error) { return lineFn(ch) })})
 	}
 	// the hypothesis of the theorems about the library, sampled: an entry line with and without a CR at its end
 	for _, it := range its {
@@ -280,7 +280,7 @@ func c06SSHCase(c *Ctx, op, tag string, data []byte, its []sshItem, crlf bool, t
 			}
 			seen[string(ch)] = true
 			ch := ch
-			oracle = append(oracle, SL{SB(ch), attrsObs(func() ([]file.Attribute, error) { return lineFn(ch) })})
+			oracle = append(oracle, SL{SB(ch), c06_attrsObs(func() ([]file.Attribute, error) { return lineFn(ch) })})
 		}
 	}
 	target := "SSHAuthorizedKeys"
@@ -300,7 +300,7 @@ func c06SSHCase(c *Ctx, op, tag string, data []byte, its []sshItem, crlf bool, t
 				}
 				items = append(items, e)
 				key := it.key
-				alone = append(alone, infoObs(func() (file.Info, error) { return file.SSHPublicKey(file.Info{}, []byte(key+"\n")) }))
+				alone = append(alone, c06_infoObs(func() (file.Info, error) { return file.SSHPublicKey(file.Info{}, []byte(key+"\n")) }))
 			case 1:
 				items = append(items, SL{I(1), S(it.ws)})
 			default:
@@ -309,7 +309,7 @@ func c06SSHCase(c *Ctx, op, tag string, data []byte, its []sshItem, crlf bool, t
 		}
 		layout = SL{items, Bool(crlf), I(trail)}
 	}
-	pobs := infoObs(func() (file.Info, error) { return parser(file.Info{}, data) })
+	pobs := c06_infoObs(func() (file.Info, error) { return parser(file.Info{}, data) })
 	c.Emit(op+":"+tag, SL{S(name), SB(data), oracle, cands, layout, alone}, SL{pobs, insp, I(1)})
 }
 
@@ -561,14 +561,14 @@ func c06PEMCase(c *Ctx, tag string, data []byte, its []pemItem) {
 			case 0:
 				items = append(items, SL{I(0), SB(it.text), S(it.blk.typ), SB(it.blk.bytes)})
 				t := it.blk.text()
-				alone = append(alone, infoObs(func() (file.Info, error) { return file.PEMFile(file.Info{}, t) }))
+				alone = append(alone, c06_infoObs(func() (file.Info, error) { return file.PEMFile(file.Info{}, t) }))
 			default:
 				items = append(items, SL{I(it.kind), SB(it.text)})
 			}
 		}
 		layout = SL{items}
 	}
-	pobs := infoObs(func() (file.Info, error) { return file.PEMFile(file.Info{}, data) })
+	pobs := c06_infoObs(func() (file.Info, error) { return file.PEMFile(file.Info{}, data) })
 	c.Emit("pem:"+tag, SL{S(name), SB(data), dec, desc, cands, layout, alone}, SL{pobs, insp, I(1)})
 }
 
@@ -871,7 +871,7 @@ func c06WalkJKS(data []byte) (w jksWalk) {
 				e.certs = append(e.certs, jksCert{string(ct), der})
 				if strings.ToUpper(string(ct)) == "X.509" && !seenCert[string(der)] {
 					seenCert[string(der)] = true
-					w.certs = append(w.certs, SL{SB(der), infoObs(func() (file.Info, error) { return file.VerifParseCertificate(der) })})
+					w.certs = append(w.certs, SL{SB(der), c06_infoObs(func() (file.Info, error) { return file.VerifParseCertificate(der) })})
 				}
 			}
 		case 3:
@@ -968,7 +968,7 @@ func c06JKSCase(c *Ctx, tag string, data []byte, magic []byte, version uint32, e
 			for _, ct := range e.certs {
 				cs = append(cs, SL{S(ct.typ), SB(ct.der)})
 				der := ct.der
-				al = append(al, infoObs(func() (file.Info, error) { return file.ASN1File(file.Info{}, der) }))
+				al = append(al, c06_infoObs(func() (file.Info, error) { return file.ASN1File(file.Info{}, der) }))
 			}
 			var d8 [8]byte
 			binary.BigEndian.PutUint64(d8[:], e.date)
@@ -977,7 +977,7 @@ func c06JKSCase(c *Ctx, tag string, data []byte, magic []byte, version uint32, e
 		}
 		layout = SL{SB(magic), I(int(version)), ents, SB(mac)}
 	}
-	pobs := infoObs(func() (file.Info, error) { return parser(file.Info{}, data) })
+	pobs := c06_infoObs(func() (file.Info, error) { return parser(file.Info{}, data) })
 	c.Emit("jks:"+tag, SL{S(name), SB(data), w.secret, w.certs, w.encs, cands, layout, alone}, SL{pobs, insp, I(1)})
 }
 
